@@ -98,14 +98,15 @@ def check_formula(pre, goal, timeout_ms=10000, use_cvc5=True):
     if any(p is False for p in pre):
         # a contradictory precondition proves nothing: never counted as a proof
         return Verdict("unknown", "vacuous-pre", None, 0.0, "precondition is literally False: the obligation is vacuous")
-    s.push()
     s.add(z3.Not(goal) if not isinstance(goal, bool) else z3.BoolVal(not goal))
     r = s.check()
     if r == z3.unsat:
-        # vacuity guard: the premises alone (axioms, side conditions, preconditions) must be satisfiable
-        s.pop()
-        s.set("timeout", min(timeout_ms, 5000))
-        if s.check() == z3.unsat:
+        # vacuity guard: the premises alone (axioms, side conditions, preconditions) must be satisfiable.  A separate solver is
+        # used (push/pop would switch the main query to z3's weaker incremental mode); "unknown" within its budget is accepted.
+        s2 = z3.Solver()
+        s2.set("timeout", min(timeout_ms, 5000))
+        s2.add(*[p for p in pre if not isinstance(p, bool)])
+        if s2.check() == z3.unsat:
             return Verdict("unknown", "vacuous-pre", None, time.time() - t0, "the premises are unsatisfiable: the obligation is vacuous")
         return Verdict("proved", "z3", None, time.time() - t0)
     if r == z3.sat:
